@@ -303,6 +303,8 @@ func c16Patterns(thorough bool) []string {
 	// absolute variants and a few longer shapes
 	genRunes([]rune("a*?./"), 2, func(p []rune) { pats = append(pats, "@ROOT@/"+string(p)) })
 	pats = append(pats, "*/*", "*/a", "*/*/", ".*/a", "*//a", "*/./a", "a*/../*", "[ab]*/[ab]", "\\*", "*\\/a", "@ROOT@//*", "@ROOT@/*/a", "é", "?", "[!a]*", "a.b/*", "*.b", "*/a.b", "*/.a", "*/.*")
+	// an absolute pattern whose leading separator is written escaped
+	pats = append(pats, "\\@ROOT@/*", "\\@ROOT@/a", "\\@ROOT@/*/a", "\\@ROOT@")
 	// escaped characters inside a component that is followed by further components (two levels; the escape may stand
 	// before, between or after ordinary and pattern characters)
 	for _, first := range []string{"\\*", "\\a", "a\\b", "\\a\\b", "?\\b", "\\a*", "*\\b", "a\\.b", "\\.a", "[a]\\b", "\\é"} {
